@@ -77,3 +77,52 @@ package retriever
 //@     invariant seen: seen != nil && fresh(seen) && (forall p string :: p in written[outputDir] ==> p in seen)
 //@     invariant safe: forall p string :: p in written[outputDir] ==> insideName(p)
 //@     invariant tracked: trackIntegrity ==> integrity != nil && fresh(integrity)
+
+// C20 kernel, part 3: nothing is written to the target database before the input has been verified. Ghost state
+// records what has been established: fragmentsVerified[dir] after verifyLoadFragments(dir, ..) returned nil,
+// targetsEmpty[db] after requireEmptyLoadTargets(.., db, ..) returned nil (both trusted: their bodies read files and
+// the database). loadManifestGraph - the only function through which Load reaches graph.Database.BatchOperation -
+// requires both for the directory and database it is given, and Load is verified to call it only then, for every
+// graph of the manifest.
+
+//@ import context "context"
+//@ import graph "github.com/specterops/dawgs/graph"
+//@ ghost comp fragmentsVerified bool
+//@ ghost comp targetsEmpty bool
+
+//@ func prepareLoadInput(options LoadOptions) (LoadOptions, func(), error)
+//@   trusted
+//@   nomod
+//@ func readLoadManifest(inputDir string, driverName string) (Manifest, error)
+//@   trusted
+//@   nomod
+//@ func manifestFileCount(value Manifest) int
+//@   trusted
+//@   nomod
+//@ func manifestFragmentBytes(value Manifest) (int64, int64)
+//@   trusted
+//@   nomod
+//@ func assertManifestSchemas(ctx context.Context, db graph.Database, value Manifest) error
+//@   trusted
+//@   nomod
+//@ func verifyLoadFragments(inputDir string, nextManifest Manifest) error
+//@   trusted
+//@   modifies fragmentsVerified[inputDir]
+//@   ensures result == nil ==> fragmentsVerified[inputDir]
+//@ func requireEmptyLoadTargets(ctx context.Context, db graph.Database, graphEntries []GraphManifest) error
+//@   trusted
+//@   modifies targetsEmpty[db]
+//@   ensures result == nil ==> targetsEmpty[db]
+//@ func loadManifestGraph(ctx context.Context, db graph.Database, options LoadOptions, codec CompressionCodec, graphIndex int, graphCount int, graphEntry GraphManifest) (int64, int64, error)
+//@   trusted
+//@   requires verifiedFirst: fragmentsVerified[options.InputDir]
+//@   requires emptyFirst: targetsEmpty[db]
+//@   nomod
+//@ func verifyLoadedMetrics(ctx context.Context, db graph.Database, value Manifest, batchSize int, progress ProgressFunc, progressInterval int64) error
+//@   trusted
+//@   nomod
+
+//@ func Load(ctx context.Context, db graph.Database, driverName string, options LoadOptions) (LoadResult, error)
+//@   nosafety
+//@   loop 0
+//@     invariant cleared: fragmentsVerified[options.InputDir] && targetsEmpty[db]
